@@ -177,7 +177,8 @@ def task_fit(p, tier, seed):
 
     def harness():
         with installed(extra=[(fp, "minimize", stub)]), quiet():
-            ad = sym_adapter(p, env, pn, sn, k=None)
+            # initial noise concrete (the program's numbers): the clipping max(1e-6, .) then forks only on the optimiser's x
+            ad = make_adapter(p, pyh.sym_calibration_map(p, env), {c: float(p.process_noise[c]) for c in p.control}, {k_: {r: float(p.sensor_noise[k_][r]) for r in p.sensors[k_]} for k_ in p.sensors}, None)
             orig = dict(ad.get_params())
             x0 = list(ad._flatten_scoring_params())
             Xo = np.empty((1, W), dtype=object)
@@ -190,8 +191,8 @@ def task_fit(p, tier, seed):
                 ret, failed = None, ex
             return ad, orig, ret, failed, x0
 
-    cfg = {"gate": "assume", "inverse": "closed", "any_gate": "assume-false", "prune": False, "assume_false_sites": [("transform", "< 0.0"), ("mahalanobis", "< 0.0")]}
-    leaves = explore(harness, assumes=assumes, config=cfg, max_paths=256)
+    cfg = {"gate": "assume", "inverse": "closed", "any_gate": "assume-false", "assume_false_sites": [("transform", "< 0.0"), ("mahalanobis", "< 0.0")]}
+    leaves = explore(harness, assumes=assumes, config=cfg, max_paths=512)
     part.leaves(leaves)
     bad = [l for l in leaves if l.status != "ok"]
     if bad:
@@ -267,22 +268,133 @@ def task_fit(p, tier, seed):
                     continue
                 key, r = rest
                 v = lift(snow[key][r])
-                q = prove_valid(part, f"{tag}: sensor_noises[{key}][{r}] == x[{i}]", v == xs[i], pa, tmo)
+                # position clause: wherever the optimiser's value is a usable magnitude (>= 1e-6) it is stored unchanged
+                # under that reading's name (below 1e-6 the library may clip; the property only asks for finiteness)
+                q = prove_valid(part, f"{tag}: x[{i}] >= 1e-6 => sensor_noises[{key}][{r}] == x[{i}]", z3.Implies(xs[i] >= qval(1e-6), v == xs[i]), pa, tmo)
                 if q.status == "sat":
-                    viol("sensor-noise-value", f"fitted sensor_noises[{key}][{r}] = {z3.simplify(v)} is not x[{i}]", l)
+                    viol("sensor-noise-value", f"fitted sensor_noises[{key}][{r}] = {z3.simplify(v)} is not x[{i}] (for x[{i}] >= 1e-6)", l)
         # the initial point handed to the optimiser is the flattening of the original noise
         for i, (kind, *rest) in enumerate(pos):
-            want = pn[rest[0]] if kind == "process" else sn[rest[0]][rest[1]]
-            ok0 = lift(x0[i]).eq(want)
+            want = float(p.process_noise[rest[0]]) if kind == "process" else float(p.sensor_noise[rest[0]][rest[1]])
+            ok0 = (not isinstance(x0[i], SymReal)) and float(x0[i]) == want
+            if li == 0:
+                part.record(Q("unsat" if ok0 else "sat", None, 0.0, ""), f"{key_base}: x0[{i}] == original noise of {rest}")
             if not ok0:
-                q = prove_valid(part, f"{tag}: x0[{i}] == original noise of {rest}", lift(x0[i]) == want, pa, tmo)
-                if q.status == "sat":
-                    viol("x0", f"initial point x0[{i}] is {x0[i]}, expected the noise of {rest}", l)
+                viol("x0", f"initial point x0[{i}] is {x0[i]}, expected the noise of {rest} = {want}", l)
     part.record(Q("unsat" if (n_succ and n_fail) else "sat", None, 0.0, ""), f"{key_base}: both optimiser outcomes explored (success paths {n_succ}, failure paths {n_fail})")
     if not (n_succ and n_fail):
         part.harness_error(f"{key_base}: vacuity: success paths {n_succ}, failure paths {n_fail}")
     part.sample({"program": p.id, "paths": len(leaves), "flattening": [list(x) for x in pos], "optimizer_calls": calls["n"]})
     return part.d
+
+
+def float_fit_outcome(p, xvals, Xrow):
+    """Real fit with a concrete stub optimiser that evaluates the objective at xvals: returns the outcome's name."""
+    import formak.python as fp
+    from formak.exceptions import MinimizationFailure
+
+    def stub(fun, x0, **kw):
+        fun(list(xvals))
+        return SimpleNamespace(success=True, x=list(x0), message="stub")
+
+    saved = fp.minimize
+    fp.minimize = stub
+    try:
+        with quiet():
+            ad = float_adapter(p, {})
+            try:
+                ad.fit(np.array([list(Xrow)], dtype=float))
+                return "fitted"
+            except MinimizationFailure:
+                return "MinimizationFailure"
+            except Exception as ex:
+                return f"{type(ex).__name__}: {str(ex)[:120]}"
+    finally:
+        fp.minimize = saved
+
+
+def task_fit_objective_raises(p, tier, seed):
+    """'fit either fails with MinimizationFailure or returns an estimator': may the library's own objective raise
+    something else at a point an optimiser is entitled to try?  The stub evaluates the objective at an ARBITRARY x;
+    the sensor-uncertainty validity gate is explored (1x1 matrices: eigenvalue == entry, exact contract)."""
+    part = Part()
+    part.program(p.id)
+    part.fn("python.SklearnEKFAdapter.fit (objective evaluation)", "python.assert_valid_covariance", "python.SklearnEKFAdapter._inverse_flatten_scoring_params")
+    import formak.python as fp
+    from formak.exceptions import MinimizationFailure
+
+    if any(len(p.sensors[k_]) != 1 for k_ in p.sensors):
+        part.harness_error("task_fit_objective_raises needs single-reading sensors (exact 1x1 eigenvalue contract)")
+        return part.d
+    env = pyh.input_env(p)
+    W = width(p)
+    Xv = [z3.Real(f"X_0_{j}") for j in range(W)]
+    pos = flat_positions(p)
+    xs = [z3.Real(f"opt_x{i}") for i in range(len(pos))]
+    assumes = [z3.And(v >= -2, v <= 2) for v in Xv] + [z3.And(v >= -4, v <= 4) for v in xs]
+    key_base = f"{p.id}/fit-objective"
+
+    def contract(c, Mx, vals):
+        n_ = Mx.shape[0]
+        if n_ == 1:
+            c.assume(vals[0].t == lift(Mx[0, 0]))  # exact for a 1x1 matrix
+        else:
+            for i in range(n_):
+                c.assume(vals[i].t >= 0)  # state covariance gates assumed (C09); cheap, so visible to the pruning solver
+
+    def stub(fun, x0, **kw):
+        fun([SymReal(v) for v in xs])
+        return SimpleNamespace(success=True, x=list(x0), message="stub")
+
+    def harness():
+        with installed(extra=[(fp, "minimize", stub)]), quiet():
+            ad = make_adapter(p, {}, {c: float(p.process_noise[c]) for c in p.control}, {k_: {r: float(p.sensor_noise[k_][r]) for r in p.sensors[k_]} for k_ in p.sensors}, None)
+            Xo = np.empty((1, W), dtype=object)
+            for j in range(W):
+                Xo[0, j] = SymReal(Xv[j])
+            try:
+                ad.fit(Xo)
+                return "fitted"
+            except MinimizationFailure:
+                return "MinimizationFailure"
+
+    cfg = {"gate": "explore", "eig_contract": contract, "inverse": "closed", "any_gate": "assume-false", "assume_false_sites": [("transform", "< 0.0"), ("mahalanobis", "< 0.0")]}
+    leaves = explore(harness, assumes=assumes, config=cfg, max_paths=256, prune_timeout_ms=8000)
+    part.leaves(leaves)
+    # raising leaves that are infeasible under the full assumption set (incl. the deferred definitions) are discarded
+    bad = [l for l in leaves if l.status == "exc" and solve(l.assumes + l.pc, 20000).status != "unsat"]
+    ok = [l for l in leaves if l.status == "ok"]
+    found = False
+    for l in bad:
+        q = solve(l.assumes + l.pc + dyadic_box_simple(xs + Xv), 20000)
+        if q.status != "sat":
+            q = solve(l.assumes + l.pc, 20000)
+        if q.status != "sat":
+            continue
+        xvals = [float(q.model.get(f"opt_x{i}", 0)) for i in range(len(xs))]
+        row = [float(q.model.get(f"X_0_{j}", 0)) for j in range(W)]
+        part.d["witnesses"] += 1
+        out = float_fit_outcome(p, xvals, row)
+        if out not in ("fitted", "MinimizationFailure"):
+            path = write_replay(PID, {"key": f"{key_base}/raises", "info": {"program": p.id, "kind": "fit-objective"}, "inputs": {"x": xvals, "row": row}, "outcome": out})
+            part.violation(f"{key_base}/raises", f"fit raises {out} (neither MinimizationFailure nor a fitted estimator) when the optimiser evaluates the objective at x={xvals} on data row {row}", path)
+            found = True
+            break
+    part.record(Q("sat" if bad else "unsat", None, 0.0, ""), f"{key_base}: no feasible path on which the objective evaluation at an arbitrary x raises anything but MinimizationFailure ({len(leaves)} paths)")
+    if bad and not found:
+        part.d["inconclusive"].append(f"{key_base}: raising path(s) {bad[0]} feasible symbolically but not reproduced concretely")
+    if not ok:
+        part.harness_error(f"{key_base}: vacuity: no completing path")
+    part.sample({"program": p.id, "paths": len(leaves), "raising_paths": len(bad)})
+    return part.d
+
+
+def dyadic_box_simple(vars_):
+    cs = []
+    for v in vars_:
+        k_ = z3.Int("grid!" + v.decl().name())
+        cs += [v == z3.ToReal(k_) / 8]
+    return cs
 
 
 def task_flatten_roundtrip(p, tier, seed):
@@ -379,9 +491,12 @@ def _dispatch(fn, args):
 
 def run(tier, seed):
     rep = Report(PID, tier, seed, "translation_validation")
-    tasks = [(task_params, (CP.P3(), tier, seed)), (task_flatten_roundtrip, (CP.P3(), tier, seed)), (task_flatten_roundtrip, (CP.P10(), tier, seed))]
+    tasks = [(task_params, (CP.P3(), tier, seed)), (task_flatten_roundtrip, (CP.P3(), tier, seed))]
+    if tier != "quick":
+        tasks.append((task_flatten_roundtrip, (CP.P10(), tier, seed)))
     tasks.append((task_fit, (CP.P1(), tier, seed)))
     tasks.append((task_fit, (CP.P8(), tier, seed)))
+    tasks.append((task_fit_objective_raises, (CP.P1(), tier, seed)))
     if tier != "quick":
         tasks += [(task_fit, (CP.P3(), tier, seed))]
         tasks += [(task_params, (CP.P1(), tier, seed)), (task_params, (CP.P10(), tier, seed)), (task_fit, (CP.P10(), tier, seed)), (task_flatten_roundtrip, (CP.P8(), tier, seed))]
@@ -411,6 +526,12 @@ def replay(path):
         print(probs)
         print("REPRODUCED" if probs else "not reproduced")
         return 1 if probs else 0
+    if info["kind"] == "fit-objective":
+        out = float_fit_outcome(p, r["inputs"]["x"], r["inputs"]["row"])
+        print("outcome:", out)
+        bad = out not in ("fitted", "MinimizationFailure")
+        print("REPRODUCED" if bad else "not reproduced")
+        return 1 if bad else 0
     if info["kind"] == "flatten":
         with quiet():
             ad = float_adapter(p, {})
